@@ -237,6 +237,10 @@ fn stmt_effective_class(
         if !summary.available {
             return ExprClass::Impure;
         }
+        // Assigning to a variable of an enclosing scope is an effect the caller can observe.
+        if !summary.transitive_capture_writes.is_empty() {
+            return ExprClass::Impure;
+        }
 
         class.join(summary.transitive_class)
     })
